@@ -32,7 +32,8 @@ class Spec2D:
         if (self.nx + 2 * self.ny) % 3 == 0:        # deterministic decoys (no rng here): other models built after the one under test
             euler.euler2d(gamma=1.23); euler.euler1d(gamma=1.77)
         num = xnum.extrapol2d1() if self.k is None else xnum.extrapol2dk(self.k)
-        disc = md.fvm2d(model, m, num, bclist=self.bcl, numflux=self.flux)
+        dcls = md.fvm2d if (self.nx + self.ny) % 2 else md.fvm2dcart          # alias and base class
+        disc = dcls(model, m, num, bclist=self.bcl, numflux=self.flux)
         f = ffield.fdata(model, m, model.prim2cons(self.prim))
         return m, model, disc, f
 
